@@ -35,7 +35,7 @@ for _cc in ('gcc', 'clang'):
 for _cc in ('gcc', 'clang'):
     for _o, _std in (('-O0', '-std=gnu99'), ('-O2', '-std=gnu11'), ('-O1', '-std=gnu2x'), ('-O2', '-std=gnu99'), ('-O0', '-std=gnu2x')):
         CELLS.append((_cc, (_o, _std)))
-MAKERS = ['c02_expr', 'c03_ctrl', 'c04_calls', 'c05_history', 'c06_inst', 'c11_names', 'c03_ctrl', 'c01_expr']
+MAKERS = ['c02_expr', 'c03_ctrl', 'c04_calls', 'c05_history', 'c06_inst', 'c11_names', 'c03_ctrl', 'c01_expr', 'c11_deep', 'c03_switch']
 
 HAZ = ('signbit', 'count>=width', 'carry', 'truncboundary', 'div-1', 'dividendMIN')
 
@@ -81,6 +81,14 @@ def make_names(ch, params):
         m.func_names = {nimp + i: nm() for i in range(nf) if ch.below(2)}
     script = [('inst', 0)] + [('call', 0, e, [ch.below(100)]) for e in range(nf)]
     return m, script, {'ninst': 1, 'classes': {'exotic_names': 1}}
+
+
+@f1.maker('c11_deep')
+def make_deep(ch, params):
+    """a dense-switch function: hundreds of nested blocks around one br_table (block nesting only - loops and ifs become nested C
+    statements, and compilers limit how deep those may go: clang's default bracket depth is 256)"""
+    from . import c03
+    return c03.make_switch(ch, dict(params, deep=True))
 
 
 def detrap(m, script, ninst):
